@@ -4,6 +4,8 @@ pub mod c02;
 pub mod c03;
 pub mod c04;
 pub mod c05;
+pub mod c06;
+pub mod c07;
 pub mod c11;
 pub mod c12;
 pub mod c13;
@@ -17,6 +19,8 @@ pub fn get(id: &str) -> Option<Box<dyn Prop>> {
     "C03" => Some(Box::new(c03::C03)),
     "C04" => Some(Box::new(c04::C04)),
     "C05" => Some(Box::new(c05::C05)),
+    "C06" => Some(Box::new(c06::C06)),
+    "C07" => Some(Box::new(c07::C07)),
     "C11" => Some(Box::new(c11::C11)),
     "C12" => Some(Box::new(c12::C12)),
     "C13" => Some(Box::new(c13::C13)),
